@@ -4,6 +4,7 @@
 #include <algorithm>
 #include <cstdint>
 #include <cstdio>
+#include <cstdlib>
 #include <cstring>
 #include <iostream>
 #include <map>
@@ -157,6 +158,7 @@ struct State
     std::map<std::string, EncSlot> encs;
     std::map<std::string, DecSlot> decs;
     std::map<std::string, Status> stats;
+    std::map<std::string, std::unique_ptr<Payload>> pls;
 };
 
 static std::vector<std::shared_ptr<Packet>> decodeBuf(DecSlot& d, const Bytes& b)
@@ -315,9 +317,51 @@ static std::string stepLine(State& s, const std::vector<std::string>& w)
     return "bad-op";
 }
 
-int main()
+// painted before every operation so that an uninitialised local or struct member takes the pattern (C20)
+static int g_stackFill = -1;
+__attribute__((noinline)) static void paintStack(int pattern)
+{
+    volatile unsigned char area[48 * 1024];
+    for (size_t i = 0; i < sizeof(area); ++i) area[i] = static_cast<unsigned char>(pattern);
+}
+
+#include <thread>
+// --threads N: the cases of the script are distributed over N threads, each with its own State (its own
+// Encoder / Decoder / Status objects); outputs are printed in script order after all threads joined (C19)
+static int runThreaded(int n)
+{
+    std::vector<std::vector<std::vector<std::string>>> cases;   // case -> op -> words
+    std::string line;
+    while (std::getline(std::cin, line))
+    {
+        while (!line.empty() && (line.back() == '\r' || line.back() == ' ')) line.pop_back();
+        if (line.empty() || line[0] == '#') continue;
+        auto w = split(line, ' ');
+        if (w[0] == "case" || cases.empty()) cases.emplace_back();
+        cases.back().push_back(w);
+    }
+    std::vector<std::vector<std::string>> outs(cases.size());
+    std::vector<std::thread> ts;
+    for (int t = 0; t < n; ++t)
+    {
+        ts.emplace_back([&, t]() {
+            State s;
+            for (size_t c = t; c < cases.size(); c += n)
+                for (auto& w : cases[c]) outs[c].push_back(stepLine(s, w));
+        });
+    }
+    for (auto& t : ts) t.join();
+    for (auto& o : outs)
+        for (auto& l : o) std::cout << l << "\n";
+    std::cout << std::flush;
+    return 0;
+}
+
+int main(int argc, char** argv)
 {
     std::ios::sync_with_stdio(false);
+    if (argc == 3 && std::string(argv[1]) == "--threads") return runThreaded(std::atoi(argv[2]));
+    if (const char* f = std::getenv("VERIF_STACK_FILL")) g_stackFill = std::atoi(f);
     State s;
     std::string line;
     while (std::getline(std::cin, line))
@@ -328,6 +372,7 @@ int main()
         line = line.substr(st);
         if (line.empty() || line[0] == '#') continue;
         auto w = split(line, ' ');
+        if (g_stackFill >= 0) paintStack(g_stackFill);
         std::string o = stepLine(s, w);
         std::cout << o << "\n" << std::flush;
     }
